@@ -1064,6 +1064,274 @@ def run(ctx):
             if dd:
                 fail("doe.%s modified the list of level counts it was given (%s)" % (name, dd),
                      {"function": name, "levels": list(refL), "history": list(hsteps), "shared": "one list of level counts"}, "purity")
+    # ---- red-team round 5 (rule 11): every input SHAPE the doe.py entry points named by the property accept ----------------
+    # The Generator classes only ever hand fresh Python lists of exactly the shape they build to the doe.py functions, so
+    # (a) build_plackett_burman was never called with a factor given as MORE than two levels ("only min and max values of
+    # the range are required": the unchanged code takes the first entry as the low and the END POINT as the high level), and
+    # (b) level containers were always Python lists.  Here the doe.py functions, FullFactorLevelsGenerator and GSDGenerator
+    # are called directly with factors of 2..5 levels and with every container representation the unchanged code accepts
+    # (measured on the unchanged tree: list, tuple, numpy arrays of float64 / float32 / int, np.linspace / np.arange, range,
+    # lists of numpy scalars; level COUNTS as list / tuple / range / integer arrays / lists of numpy integers - build_gsd
+    # insists on Python ints, so it gets list / tuple / range only; a tuple is accepted by build_plackett_burman only
+    # with two entries and by build_box_behnken only with three, because the other shapes are rewritten in place).  The
+    # model is evaluated on the float values the container HOLDS (read by the harness before the call); for
+    # Plackett-Burman on (first, last) of each level list.
+    def mk(kind, vals):
+        """a level container of representation `kind` built from the floats vals, and the list of floats it holds"""
+        vals = [float(x) for x in vals]
+        if kind == "list":
+            c = list(vals)
+        elif kind == "tuple":
+            c = tuple(vals)
+        elif kind == "ndarray":
+            c = np.array(vals, dtype=float)
+        elif kind == "ndarray_f32":
+            c = np.array(vals, dtype=np.float32)
+        elif kind == "np_scalars":
+            c = [np.float64(x) for x in vals]
+        elif kind == "linspace":
+            c = np.linspace(vals[0], vals[-1], len(vals))
+        elif kind == "int_list":
+            c = [int(x) for x in vals]
+        elif kind == "int_ndarray":
+            c = np.array([int(x) for x in vals], dtype=int)
+        elif kind == "range":
+            c = range(int(vals[0]), int(vals[0]) + len(vals))
+        elif kind == "arange":
+            c = np.arange(int(vals[0]), int(vals[0]) + len(vals))
+        else:
+            raise AssertionError(kind)
+        return c, [float(x) for x in c]
+
+    def safe_rows(out):
+        try:
+            return [[float(x) for x in r] for r in out], None
+        except Exception as ex:
+            return None, "%s: %s" % (type(ex).__name__, ex)
+
+    REPR_KINDS = ["list", "tuple", "ndarray", "ndarray_f32", "np_scalars", "linspace", "int_list", "int_ndarray", "range", "arange"]
+    shapes = Counter()
+
+    def do_levels_repr(api, vals, kinds, outer="list", reduction=2):
+        """build_full_fact / FullFactorLevelsGenerator / GSDGenerator on level containers of the given representations"""
+        made = [mk(kd, v) for kd, v in zip(kinds, vals)]
+        conts = [c for c, _ in made]
+        held = [h for _, h in made]
+        k = len(held)
+        inp = {"level_containers": list(kinds), "values": [list(h) for h in held]}
+        if api == "build_full_fact":
+            d = {"x_%d" % i: c for i, c in enumerate(conts)}
+            inp["function"] = api
+            f = lambda: doe.build_full_fact(d)
+        else:
+            arg = tuple(conts) if outer == "tuple" else list(conts)
+            inp.update(generator=api, outer_container=outer)
+            g = getattr(ops, api)(parameters=[{"name": "U_%d" % i} for i in range(k)])
+            if api == "GSDGenerator":
+                g.init(arg, reduction=reduction)
+                inp["reduction"] = reduction
+            else:
+                g.init(arg)
+            f = g.generate
+        out, e = call(f)
+        for kd in set(kinds):
+            shapes["%s: level container %s" % (api, kd)] += 1
+        after = [[float(x) for x in c] for c in conts]
+        if after != held:
+            fail("%s modified a level container it was given: %r -> %r" % (api, held, after), inp, "purity")
+        if api == "GSDGenerator":
+            knd, okind = "gsd_gen", "gsd_gen"
+            case = "CGSDGen %s %s" % (ll(held, lambda v: ll(v, fl)), nl(reduction))
+            key = ("repr", tuple(kinds), outer, tuple(tuple(v) for v in held), reduction)
+        else:
+            knd, okind = "full_levels", "fullfact_levels"
+            case = "CFullLevels %s %s" % (ll(held, lambda v: ll(v, fl)), nl(k))
+            key = ("repr", api, tuple(kinds), outer, tuple(tuple(v) for v in held))
+        m = dict(inp, kind="repr:" + knd)
+        if e is not None:
+            errors[e] += 1
+            if api != "GSDGenerator" and k >= 1:
+                fail("%s raised %s" % (api, e), inp, okind)
+            push("repr:" + knd, case, "OErr %s" % nl(ERR.get(e, 9)), dict(m, error=e), key, nontrivial=False)
+            return
+        rows, bad = safe_rows(out)
+        if bad is not None:
+            fail("%s returned something that is not a list of rows of level values (%s): %d rows, first row %r"
+                 % (api, bad, len(out), [repr(x)[:60] for x in out[0]] if len(out) else None), inp, okind)
+            push("repr:" + knd, case, "OErr 9", dict(m, error="unreadable"), key, nontrivial=False)
+            return
+        if api == "GSDGenerator":
+            oracle_gsd_gen(held, rows, inp)
+        else:
+            oracle_full(held, rows, inp)
+        push("repr:" + knd, case, rows_lit(rows), dict(m, rows=len(rows)), key, nontrivial=len(rows) > 1)
+
+    def do_counts_repr(api, lens, kind, r=2, n=2):
+        """fullfact / build_gsd on a list of level COUNTS of the given representation"""
+        lens = [int(x) for x in lens]
+        if kind == "list":
+            arg = list(lens)
+        elif kind == "tuple":
+            arg = tuple(lens)
+        elif kind == "range":
+            lens = lens[:3]
+            arg = range(min(lens[0], 3), min(lens[0], 3) + len(lens))
+            lens = list(arg)
+        elif kind == "np_ints":
+            arg = [np.int64(x) for x in lens]
+        elif kind == "ndarray_i32":
+            arg = np.array(lens, dtype=np.int32)
+        else:
+            arg = np.array(lens, dtype=np.int64)
+        shapes["%s: level counts as %s" % (api, kind)] += 1
+        if api == "build_gsd":
+            do_gsd(lens, r, n, shared=arg, hist={"level_counts_container": kind})
+            return
+        out, e = call(lambda: doe.fullfact(arg))
+        inp = {"function": "fullfact", "levels": list(lens), "level_counts_container": kind}
+        idx_lists = [[float(x) for x in range(c)] for c in lens]
+        case = "CFullLevels %s %s" % (ll(idx_lists, lambda v: ll(v, fl)), nl(len(lens)))
+        key = ("repr", "fullfact", kind, tuple(lens))
+        if e is not None:
+            errors[e] += 1
+            fail("doe.fullfact raised %s" % e, inp, "fullfact")
+            push("repr:fullfact", case, "OErr %s" % nl(ERR.get(e, 9)), dict(inp, kind="repr:fullfact", error=e), key, nontrivial=False)
+            return
+        rows = to_rows(out)
+        oracle_full(idx_lists, rows, inp)
+        push("repr:fullfact", case, rows_lit(rows), dict(inp, kind="repr:fullfact", rows=len(rows)), key)
+
+    def monotone(v):
+        return all(a <= b for a, b in zip(v, v[1:])) or all(a >= b for a, b in zip(v, v[1:]))
+
+    def do_doe_pb(vals, kinds):
+        """doe.build_plackett_burman on factors given with 2 or more levels: the design is over (first level, end point)"""
+        made = [mk(kd, v) for kd, v in zip(kinds, vals)]
+        held = [h for _, h in made]
+        d = {"x_%d" % i: c for i, (c, _) in enumerate(made)}
+        ref = [(h[0], h[-1]) for h in held]
+        n = len(ref)
+        out, e = call(lambda: doe.build_plackett_burman(d))
+        inp = {"function": "build_plackett_burman", "level_lists": [list(h) for h in held], "level_containers": list(kinds)}
+        for h, kd in zip(held, kinds):
+            shapes["build_plackett_burman: factor with %d levels" % len(h)] += 1
+            shapes["build_plackett_burman: level container %s" % kd] += 1
+        case = "CPB %s" % bounds_lit(ref)
+        key = ("repr", tuple(kinds), tuple(tuple(h) for h in held))
+        m = dict(inp, kind="repr:pb", n=n)
+        if e is not None:
+            errors[e] += 1
+            if 1 <= n <= 23:
+                fail("doe.build_plackett_burman raised %s for the supported size %d" % (e, n), inp, "pb")
+            push("repr:pb", case, "OErr %s" % nl(ERR.get(e, 9)), dict(m, error=e), key, nontrivial=False)
+            return
+        rows, bad = safe_rows(out)
+        if bad is not None:
+            fail("doe.build_plackett_burman returned something that is not a list of rows of level values (%s)" % bad, inp, "pb")
+            push("repr:pb", case, "OErr 9", dict(m, error="unreadable"), key, nontrivial=False)
+            return
+        if all(monotone(h) for h in held):
+            # the two bounds of a factor given as an ascending or descending range are its first level and its end point;
+            # for a level list in no order the property text does not say which two values are meant: correspondence only
+            oracle_pb(ref, rows, inp)
+        else:
+            shapes["build_plackett_burman: designs with a level list in no order (correspondence only)"] += 1
+        push("repr:pb", case, rows_lit(rows), dict(m, rows=len(rows)), key)
+
+    def do_doe_bb(bounds, kinds, shape):
+        """doe.build_box_behnken on three-level containers [l, mid, u] (l <= u) resp. two-level lists"""
+        ref = [(float(a), float(b)) for a, b in bounds]
+        made = [mk(kd, [a, (a + b) / 2, b] if shape == 3 else [a, b]) for kd, (a, b) in zip(kinds, ref)]
+        if any(h[0] != a or h[-1] != b or (shape == 3 and h[1] != (a + b) / 2) for (_, h), (a, b) in zip(made, ref)):
+            return                                                    # a representation that does not hold the values exactly
+        d = {"x_%d" % i: c for i, (c, _) in enumerate(made)}
+        n = len(ref)
+        out, e = call(lambda: doe.build_box_behnken(d))
+        inp = {"function": "build_box_behnken", "level_lists": [list(h) for _, h in made], "level_containers": list(kinds)}
+        for kd in set(kinds):
+            shapes["build_box_behnken: %d-level container %s" % (shape, kd)] += 1
+        case = "CBB %s" % bounds_lit(ref)
+        key = ("repr", shape, tuple(kinds), tuple(ref))
+        m = dict(inp, kind="repr:bb", n=n)
+        if e is not None:
+            errors[e] += 1
+            if n >= 3:
+                fail("doe.build_box_behnken raised %s for %d factors" % (e, n), inp, "bb")
+            push("repr:bb", case, "OErr %s" % nl(ERR.get(e, 9)), dict(m, error=e), key, nontrivial=False)
+            return
+        rows, bad = safe_rows(out)
+        if bad is not None:
+            fail("doe.build_box_behnken returned something that is not a list of rows of level values (%s)" % bad, inp, "bb")
+            push("repr:bb", case, "OErr 9", dict(m, error="unreadable"), key, nontrivial=False)
+            return
+        oracle_bb(ref, rows, inp)
+        push("repr:bb", case, rows_lit(rows), dict(m, rows=len(rows)), key)
+
+    # values every representation holds exactly: small integers (range / arange / int containers), quarters (float32)
+    def vals_for(kind, L):
+        if kind in ("range", "arange"):
+            a = rng.randrange(-3, 6)
+            return [float(a + j) for j in range(L)]
+        if kind in ("int_list", "int_ndarray"):
+            return [float(x) for x in rng.sample(range(-6, 12), L)]
+        if kind == "ndarray_f32":
+            return [float(x) for x in rng.sample([-2.5, -1.0, 0.0, 0.25, 0.5, 0.75, 1.0, 1.5, 2.0, 3.0, 6.0, 10.0, 100.0], L)]
+        if kind == "linspace":
+            a = float(rng.choice(GRID[:10]))
+            return [a + j * rng.choice([0.5, 1.0, 0.25]) for j in range(L)] if L > 1 else [a]
+        return [float(x) for x in rng.sample(GRID, L)]
+
+    # Plackett-Burman: the red-team case first, then factors with 2..5 levels in ascending / descending / no order
+    do_doe_pb([[50.0, 60.0, 70.0], [290.0, 320.0, 350.0], [0.9, 1.0]], ["list", "list", "list"])
+    do_doe_pb([[0.0, 5.0, 10.0], [3.0, 2.0, 1.0], [1.0, 2.0, 3.0, 4.0]], ["list", "ndarray", "np_scalars"])
+    do_doe_pb([[1.0, 5.0, 3.0], [0.5, 0.1, 0.2, 0.9], [2.0, 2.0, 2.0]], ["list", "list", "list"])
+    do_doe_pb([[1.0, 2.0], [4.0, 3.0]], ["tuple", "ndarray"])
+    PB_KINDS = ["list", "list", "list", "ndarray", "np_scalars", "ndarray_f32", "linspace", "int_list", "int_ndarray", "arange"]
+    for s in range(ctx.pick(36, 300)):
+        n = rng.choice([1, 2, 3, 3, 4, 5, 7, 8, 11, 12]) if s % 6 else rng.randint(1, 23)
+        vals, kds = [], []
+        for _ in range(n):
+            kd = rng.choice(PB_KINDS)
+            L = rng.choice([2, 3, 3, 3, 4, 4, 5])
+            if rng.random() < 0.15 and L == 2:
+                kd = "tuple"
+            v = vals_for(kd, L)
+            q = rng.random()
+            if kd not in ("linspace", "arange"):
+                v = sorted(v) if q < 0.5 else (sorted(v, reverse=True) if q < 0.75 else v)
+            vals.append(v)
+            kds.append(kd)
+        do_doe_pb(vals, kds)
+    # Box-Behnken: three-level containers of every representation, two-level lists
+    for s in range(ctx.pick(12, 100)):
+        n = rng.choice([3, 3, 4, 5])
+        shape = 3 if s % 3 else 2
+        bounds = [(a, b) for a, b in gen_bounds(rng, n, degenerate=0.0)]
+        pool_k = ["list", "tuple", "ndarray", "np_scalars"] if shape == 3 else ["list", "np_scalars"]
+        do_doe_bb(bounds, [rng.choice(pool_k) for _ in range(n)], shape)
+    # full factorial over level containers: the red-team cases, each representation alone, then mixtures
+    do_levels_repr("FullFactorLevelsGenerator", [[0.0, 0.25, 0.5, 0.75, 1.0], [10.0, 20.0, 30.0]], ["linspace", "list"])
+    do_levels_repr("build_full_fact", [[50.0, 60.0, 70.0], [290.0, 320.0, 350.0], [0.9, 1.0]], ["ndarray", "ndarray", "ndarray"])
+    for api in ("build_full_fact", "FullFactorLevelsGenerator", "GSDGenerator"):
+        for kd in REPR_KINDS:
+            Ls = [rng.choice([2, 3, 4]), rng.choice([2, 3]), rng.choice([2, 3, 5])][:rng.choice([2, 3])]
+            do_levels_repr(api, [vals_for(kd, L) for L in Ls], [kd] * len(Ls), outer=rng.choice(["list", "tuple"]))
+    for s in range(ctx.pick(30, 300)):
+        api = rng.choice(["build_full_fact", "FullFactorLevelsGenerator", "GSDGenerator"])
+        k = rng.choice([1, 2, 2, 3, 3, 4]) if api != "GSDGenerator" else rng.choice([2, 2, 3, 3, 4])
+        kds = [rng.choice(REPR_KINDS) for _ in range(k)]
+        Ls = [rng.choice([1, 2, 2, 3, 3, 4, 5] if api != "GSDGenerator" else [2, 2, 3, 3, 4, 5]) for _ in range(k)]
+        do_levels_repr(api, [vals_for(kd, L) for kd, L in zip(kds, Ls)], kds, outer=rng.choice(["list", "tuple"]),
+                       reduction=rng.choice([2, 2, 3]))
+    # level counts: fullfact on list / tuple / range / integer arrays / numpy integers, build_gsd on list / tuple / range
+    for s in range(ctx.pick(18, 150)):
+        k = rng.choice([1, 2, 2, 3, 3, 4])
+        lens = [rng.choice([2, 2, 3, 3, 4, 5]) for _ in range(k)]
+        do_counts_repr("fullfact", lens, rng.choice(["list", "tuple", "range", "np_ints", "ndarray_i32", "ndarray_i64"]))
+        if k >= 2:
+            r = rng.choice([2, 2, 3])
+            do_counts_repr("build_gsd", lens, rng.choice(["tuple", "range", "tuple", "list"]), r=r, n=rng.choice([1, r]))
+
     # the in-place effect of build_plackett_burman on lists that do not have two elements (never reached through the Generator
     # classes, which pass fresh two-element lists): measured for the record
     for lst in ([1.0, 2.0, 3.0], [0.5, 0.1, 0.2, 0.9]):
@@ -1082,7 +1350,12 @@ def run(ctx):
                 "every way a caller can change it: bounds by item assignment / list rebinding / dict replacement / a new same-length "
                 "gen.parameters, with and without init() before the next run; level tables by editing the SAME table object in place - "
                 "level appended, inserted, dropped, overwritten, levels replaced by slice or by a new inner list, tables swapped - and "
-                "init() with it again) and on one dict / list handed repeatedly to the doe.py functions (edited in place between calls): "
+                "init() with it again) and on one dict / list handed repeatedly to the doe.py functions (edited in place between calls); "
+                "direct calls of build_plackett_burman with factors of 2..5 levels (ascending, descending, no order; the model is evaluated on "
+                "first level and end point), of build_box_behnken with two- and three-level containers, and of build_full_fact / "
+                "FullFactorLevelsGenerator / GSDGenerator / fullfact / build_gsd with level containers and level-count containers of every "
+                "representation the unchanged code accepts (list, tuple, float64 / float32 / integer arrays, linspace, arange, range, lists "
+                "of numpy scalars): "
                 "every run of a history is compared with the model on the bounds / levels the user's structures hold at the time of the "
                 "call (the harness's own record, which follows the user's edits and never reaches artap), and the shared structures must be bit-identical before and after every run; a case is non-trivial when the implementation returned a design (rejected sizes are compared too but not "
                 "counted); distinct = distinct (generator, parameters) resp. (history so far, parameters)") % ctx.pick(8, 12)
@@ -1093,7 +1366,8 @@ def run(ctx):
                       "histories": dict(sorted(hstat.items())),
                       "ordered_pairs_of_generator_configurations_seen_adjacent": "%d of 36" % len(adjacent),
                       "ordered_pairs_missing": sorted("%s -> %s" % (a, b) for a in CONFIGS for b in CONFIGS if (a, b) not in adjacent),
-                      "doe_argument_effects_observed": dict(sorted(effects.items()))})
+                      "doe_argument_effects_observed": dict(sorted(effects.items())),
+                      "input_shapes_of_direct_doe_calls": dict(sorted(shapes.items()))})
 
 
 LEVEL_TEXT = ("Machine-checked Coq theorems over an executable model of fullfact/construct_df, pbdesign, bbdesign and build_gsd with its "
